@@ -517,7 +517,11 @@ def rule_tokendesc(chk, prog, tier):
 UAF_TEXTS = ['#define p int\np a; p b;\n', '#define p() int\np() a; p() b; p() c;\n', '#define K(x) while (x) return x\nK(1); K(2);\n', '#define A 1\n#define B A + A\nB; B;\n',
              '#define S(x) #x\nS(int); S(int); S(a b);\n', '#define F(x) x + x\nF(unsigned); F(f(1,2));\n', '#define X 1\n#undef X\n#define X 2\nX; X;\n',
              '#define X 1\n#define X 1\nX;\n', '#define V(...) __VA_ARGS__ __VA_ARGS__\nV(int, char); V(long);\n', '#define E()\nE() E();\n#undef E\nE();\n',
-             '#define G(a, b) a b a\nG(struct, s); G(union, u);\n', '#define T typedef\nT int t1; T int t2;\n#undef T\nT;\n']
+             '#define G(a, b) a b a\nG(struct, s); G(union, u);\n', '#define T typedef\nT int t1; T int t2;\n#undef T\nT;\n',
+             # the name of a function-like macro as the last token of an argument: deciding whether it is invoked looks past the end of the
+             # enclosing expansion, which must not release the argument while the token is still in use
+             '#define F(a) a\n#define B(a) a\nB(F) ;\n', '#define F(a) a\n#define B(a) a\nB(F)(1) ; B(F) B(F) ;\n', '#define F(a) a\n#define B(a, b) b a\nB(F, F) x; B(B, F)(1, 2);\n',
+             '#define F(a) a\n#define B(a) a\n#define C(a) B(a) a\nC(F) ; C(B(F)) y;\n', '#define F() 1\n#define B(a) a\nB(F) B(F)() ;\n']
 
 
 def rule_pp_uaf(chk, prog, tier):
